@@ -144,7 +144,9 @@ def run_one(vec, dtype=np.float64, tl_by_name=False):
     except Exception as e:
         raised = e
     if exp == "error" and raised is None:
-        problems.append(f"{{C13}} {op}/{cls_name}/{via}: ill-formed call was accepted")
+        # a whole-array assignment of an ndarray that does not have exactly the target's shape is also what C05 forbids
+        tag = "{C13,C05}" if (op == "array_ctor" and via in ("set_values", "ellipsis") and list(cfg["shape"]) not in ([-1], [-2])) else "{C13}"
+        problems.append(f"{tag} {op}/{cls_name}/{via}: ill-formed call was accepted (values of shape {list(cfg['shape'])} for dims {list(ds)})")
     if exp == "ok" and raised is not None:
         problems.append(f"{{C13}} {op}/{cls_name}/{via}: well-formed call raised {type(raised).__name__}: {str(raised)[:200]}")
     for what, a in made:
